@@ -42,7 +42,7 @@ Proof.
 Qed.
 
 (* ---------------------------------------------------------------- device invariant *)
-(* the put area lies inside the vector: true from dev_open on, unless setbuf shrinks a fully buffered device *)
+(* the put area lies inside the vector: true from dev_open on, preserved by every device operation *)
 Definition ok (d : dev) : Prop := lenN (d_buf d) <= d_vsize d.
 
 Lemma zfill_ok vs b : lenN b <= vs -> zfill vs b = b.
@@ -225,25 +225,19 @@ Proof.
     + unfold ok. rewrite R1, R2. exact Hge.
 Qed.
 
-(* setbuf is safe unless it shrinks a fully buffered device below its content (the refuted case) *)
-Definition setbuf_safe (d : dev) (size : N) : Prop := d_full d = true -> lenN (d_buf d) <= size.
-
-Lemma dev_setbuf_spec d c size : ok d -> setbuf_safe d size -> conserves d c (dev_setbuf d c size) [].
+(* async_io_buf::setbuf in full buffering mode only grows the vector and keeps the put area: no hypothesis about the
+   requested size is needed (before /repo commit 00eb9d4 a size below the buffered amount broke the invariant ok) *)
+Lemma dev_setbuf_spec d c size : ok d -> conserves d c (dev_setbuf d c size) [].
 Proof.
-  intros Hok Hsafe. unfold dev_setbuf. destruct (d_full d) eqn:Ef; [|now apply basic_setbuf_spec].
-  specialize (Hsafe Ef). set (d0 := set_cap d size).
+  intros Hok. unfold dev_setbuf. destruct (d_full d) eqn:Ef; [|now apply basic_setbuf_spec].
+  set (d0 := set_cap d size).
   assert (Hok0 : ok d0) by exact Hok.
-  set (d1 := if d_vsize d0 <? size then resize d0 size else d0).
-  assert (H1 : d_buf d1 = d_buf d /\ ok d1 /\ d_async d1 = d_async d /\ d_final d1 = d_final d /\ d_eofsent d1 = d_eofsent d /\ d_cap d1 = size).
-  { unfold d1. destruct (d_vsize d0 <? size).
-    - destruct (resize_ok d0 size Hok0) as (R1 & R2 & R3 & R4 & R5 & R6 & R7).
-      rewrite R1, R3, R4, R6, R7. fin. unfold ok. rewrite R1, R2. exact Hsafe.
-    - fin. }
-  destruct H1 as (B1 & O1 & A1 & F1 & E1 & C1).
-  destruct (resize_ok d1 (d_cap d1) O1) as (R1 & R2 & R3 & R4 & R5 & R6 & R7).
-  apply conserves_nowrite; unfold do_setp; rewrite ?R1, ?R3, ?R6, ?R7; try assumption.
-  - now rewrite app_nil_r.
-  - unfold ok. rewrite R1, R2, C1, B1. exact Hsafe.
+  destruct (N.ltb_spec (d_vsize d0) size) as [Hlt|Hge].
+  - destruct (resize_ok d0 size Hok0) as (R1 & R2 & R3 & R4 & R5 & R6 & R7).
+    apply conserves_nowrite; rewrite ?R1, ?R3, ?R6, ?R7; try reflexivity.
+    + now rewrite app_nil_r.
+    + unfold ok. rewrite R1, R2. unfold ok in Hok0. lia.
+  - apply conserves_nowrite; try reflexivity; [now rewrite app_nil_r|exact Hok0].
 Qed.
 
 Lemma dev_full_spec d c b : ok d -> conserves d c (dev_full d c b) [].
@@ -282,18 +276,10 @@ Definition dstep (d : dev) (c : conn) (o : dop) : dev * conn :=
 Definition dbytes (o : dop) : bytes := match o with DSputn s => s | DSputc x => [x] | _ => [] end.
 Fixpoint drun (d : dev) (c : conn) (ops : list dop) : dev * conn :=
   match ops with [] => (d, c) | o :: t => let (d1, c1) := dstep d c o in drun d1 c1 t end.
-(* no setbuf below the buffered amount while fully buffered, checked along the run *)
-Fixpoint dsafe (d : dev) (c : conn) (ops : list dop) : Prop :=
-  match ops with
-  | [] => True
-  | o :: t => (match o with DSetbuf n => setbuf_safe d n | _ => True end) /\
-              (let (d1, c1) := dstep d c o in dsafe d1 c1 t)
-  end.
 
-Lemma dstep_spec d c o : ok d -> (match o with DSetbuf n => setbuf_safe d n | _ => True end) ->
-  conserves d c (dstep d c o) (dbytes o).
+Lemma dstep_spec d c o : ok d -> conserves d c (dstep d c o) (dbytes o).
 Proof.
-  intros Hok Hs. destruct o; cbn [dstep dbytes].
+  intros Hok. destruct o; cbn [dstep dbytes].
   - now apply dev_xsputn_spec.
   - now apply dev_sputc_spec.
   - now apply dev_sync_spec.
@@ -302,30 +288,29 @@ Proof.
   - now apply conserves_flush.
 Qed.
 
-Lemma drun_spec : forall ops d c, ok d -> dsafe d c ops ->
+Lemma drun_spec : forall ops d c, ok d ->
   conserves d c (drun d c ops) (concat (map dbytes ops)).
 Proof.
-  induction ops as [|o t IH]; intros d c Hok Hs.
+  induction ops as [|o t IH]; intros d c Hok.
   - cbn. apply conserves_nowrite; try reflexivity; [now rewrite app_nil_r|exact Hok].
-  - cbn [drun dsafe map concat] in *. destruct Hs as [Hs1 Hs2].
-    pose proof (dstep_spec d c o Hok Hs1) as H1.
+  - cbn [drun map concat] in *.
+    pose proof (dstep_spec d c o Hok) as H1.
     destruct (dstep d c o) as [d1 c1] eqn:E.
     assert (Hok1 : ok d1) by (destruct H1 as (_ & O & _); exact O).
-    specialize (IH d1 c1 Hok1 Hs2).
+    specialize (IH d1 c1 Hok1).
     eapply conserves_trans; [exact H1|exact IH].
 Qed.
 
-(* device_conservation: open, any safe sequence of operations, close *)
+(* device_conservation: open, ANY sequence of operations, close *)
 Lemma device_conservation_lemma : forall ops async cap c,
   let d0 := dev_open (new_dev async) cap in
-  dsafe d0 c ops ->
   let (d1, c1) := drun d0 c ops in
   let (d2, c2) := dev_close d1 c1 in
   tr c2 = tr c ++ concat (map dbytes ops) /\ d_buf d2 = [] /\
   (exists k, eofs c2 = eofs c ++ repeat false k ++ [true]) /\
   dev_close d2 c2 = (d2, c2).
 Proof.
-  intros ops async cap c d0 Hs.
+  intros ops async cap c d0.
   assert (Hok0 : ok d0).
   { unfold d0, dev_open, do_setp. assert (O : ok (set_cap (new_dev async) cap)) by (unfold ok; cbn; lia).
     destruct (resize_ok _ (d_cap (set_cap (new_dev async) cap)) O) as (R1 & R2 & _). unfold ok. rewrite R1, R2. cbn. lia. }
@@ -334,7 +319,7 @@ Proof.
     destruct (resize_ok _ (d_cap (set_cap (new_dev async) cap)) O) as (R1 & R2 & R3 & R4 & R5 & R6 & R7).
     rewrite R1, R6, R7. auto. }
   destruct Hf0 as (Hf0 & He0 & Hb0).
-  pose proof (drun_spec ops d0 c Hok0 Hs) as H.
+  pose proof (drun_spec ops d0 c Hok0) as H.
   destruct (drun d0 c ops) as [d1 c1]. destruct H as (A & O1 & _ & F1 & E1 & T1). cbn [fst snd] in *.
   rewrite Hf0 in F1. specialize (E1 Hf0). specialize (T1 Hf0). rewrite He0 in E1.
   assert (He1 : d_eofsent d1 = false) by (destruct E1; assumption).
